@@ -32,6 +32,7 @@ type c20File struct {
 	Values  map[string]string `json:"values"`
 	Numbers map[string]string `json:"numbers,omitempty"` // key -> JSON number literal (only for files written by encoding/json)
 	Emitter bool              `json:"emitter"`           // written by plainmap.PlainStringMapToJSON
+	Raw     int               `json:"raw,omitempty"`     // >0: besides the values, hand-written JSON of this variety is merged in (escapes, other leaf kinds)
 }
 
 type c20In struct {
@@ -99,6 +100,9 @@ func c20Gen(r *Rand, tier string) interface{} {
 			}
 			file.Values[key] = c20Value(r, fmt.Sprintf("v%d_%d:", f, k))
 		}
+		if !file.Emitter && r.Chance(1, 5) {
+			file.Raw = 1 + r.Intn(len(c20RawShapes))
+		}
 		in.Files = append(in.Files, file)
 	}
 	for k, n := 0, r.Intn(3); k < n; k++ {
@@ -117,6 +121,19 @@ func c20Gen(r *Rand, tier string) interface{} {
 		in.Second = true
 	}
 	return in
+}
+
+// c20RawShapes: hand-written members (the object key is "raw<f>") with what encoding/json never
+// emits by itself: unicode escapes incl. a surrogate pair, escaped solidus, other leaf kinds
+// (skipped by the statement), nested empty objects, exponents.
+var c20RawShapes = []string{
+	`{"esc":"\u00e9\ud83d\ude00x\/y","plain":"p"}`,
+	`{"arr":[1,"two",{"k":"v"}],"after":"a"}`,
+	`{"nul":null,"t":true,"f":false,"after":"b"}`,
+	`{"emp":{},"deep":{"emp2":{}},"after":"c"}`,
+	`{"n1":1e2,"n2":-0,"n3":1.50,"n4":12345678901234567890,"s":"\t\b\f\r"}`,
+	`{"sp":  "x" ,
+	"nl":"y"}`,
 }
 
 func c20Nest(flat map[string]string, numbers map[string]string) map[string]interface{} {
@@ -213,6 +230,15 @@ func c20Run(inI interface{}, env *Env) *Failure {
 				data = []byte(s)
 			} else {
 				data, _ = json.Marshal(c20Nest(f.Values, f.Numbers))
+				if f.Raw > 0 {
+					// splice the hand-written member in front of the generated ones
+					member := fmt.Sprintf(`"raw%d":%s`, fi, c20RawShapes[(f.Raw-1)%len(c20RawShapes)])
+					if string(data) == "{}" {
+						data = []byte("{" + member + "}")
+					} else {
+						data = []byte("{" + member + "," + string(data[1:]))
+					}
+				}
 			}
 			std, err := c20StdFlatten(data)
 			if err != nil {
@@ -325,7 +351,7 @@ func c20Shrink(inI interface{}) []interface{} {
 		c := *in
 		c.Files = nil
 		for _, f := range in.Files {
-			nf := c20File{Path: f.Path, Emitter: f.Emitter, Values: map[string]string{}}
+			nf := c20File{Path: f.Path, Emitter: f.Emitter, Raw: f.Raw, Values: map[string]string{}}
 			for k, v := range f.Values {
 				nf.Values[k] = v
 			}
